@@ -352,7 +352,16 @@ func scTransportChannel(r *Run) {
 					g := genuinePkts[r.Intn("atk", len(genuinePkts))].clone()
 					g.Copy = 700
 					g.Mut = "cross-injected"
-					switch r.Intn("atk", 3) {
+					switch r.Intn("atk", 4) {
+					case 3: // forged control message made from a genuine data packet (and the reverse):
+						// only the public type byte is replaced by the other valid type; destination unchanged
+						if g.Data[0] == 0x10 {
+							g.Data[0] = 0x80
+						} else {
+							g.Data[0] = 0x10
+						}
+						g.Mut = "type-byte-substituted"
+						r.CountFault("type-byte-substitution", 1)
 					case 0: // back to where it came from (cross-direction)
 						g.Dst, g.From = g.Src, g.Dst
 					case 1: // into the victim session, header untouched
